@@ -457,6 +457,9 @@ type c12obs struct {
 	quiesced            bool
 	serveDone           bool
 	serveRet            error
+	clientsDone         int
+	ticks               int // watchdog: virtual minutes during which nothing could run
+	stuck               string
 }
 
 var c12req = []byte("GET / HTTP/1.1\r\nHost: a\r\n\r\n")
@@ -575,7 +578,7 @@ func c12server(p c12sp) func() {
 			mcrt.GoNamed(fmt.Sprint("client", i), func() {
 				defer wg.Done()
 				cn := &o.conns[i]
-				defer func() { cn.done = true }()
+				defer func() { cn.done = true; o.clientsDone++ }()
 				if p.staggered && i > 0 {
 					mcrt.WaitUntil("previous-client-finished", func() bool { return o.conns[i-1].done })
 				}
@@ -632,17 +635,24 @@ func c12server(p c12sp) func() {
 				c.Close()
 			})
 		}
-		wg.Wait()
-		// virtual time only moves when every thread is blocked: after this sleep the server has finished all it
-		// was going to do about the closed connections
-		mtime.Sleep(2 * time.Second)
+		// Quiescence, and a client blocked for good (= deadlock): the main thread waits on the virtual clock, which only
+		// advances when every other thread is blocked or finished. (The scheduler's own deadlock report is avoided on
+		// purpose: at the time of writing it hangs when the last runnable thread is one that is just exiting.)
+		mtime.Sleep(5 * time.Second)
+		if o.clientsDone != n {
+			o.stuck = "clients"
+			return
+		}
 		o.endConc = s.GetCurrentConcurrency()
 		o.endOpen = s.GetOpenConnectionsCount()
 		o.endMap = c12mapString(s.perIPConnCounter.m)
 		o.quiesced = true
 		if p.serve {
 			ln.Close()
-			mcrt.WaitUntil("serve-returned", func() bool { return o.serveDone })
+			mtime.Sleep(time.Second)
+			if !o.serveDone {
+				o.stuck = "serve"
+			}
 		}
 	}
 }
@@ -671,7 +681,7 @@ func c12serverCheck(x *mcrt.Exec) (string, string, string) {
 		sig, what := c12invSplit(x.Out.Invariant)
 		return cls, sig, desc + ": " + what
 	}
-	if x.Out.Deadlock {
+	if x.Out.Deadlock || o.stuck == "clients" {
 		for i := range o.conns {
 			c := &o.conns[i]
 			if c.done {
@@ -683,6 +693,14 @@ func c12serverCheck(x *mcrt.Exec) (string, string, string) {
 			if c.release {
 				return cls, "hijacked-conn-not-closed-after-release", fmt.Sprintf("%s: hijack handler of connection %d was released, the client never saw EOF", desc, i)
 			}
+		}
+		if o.stuck != "" {
+			var st []string
+			for i := range o.conns {
+				c := &o.conns[i]
+				st = append(st, fmt.Sprintf("conn %d: dialed=%v entered=%v status=%d complete=%v done=%v", i, c.dialed, c.entered, c.status, c.complete, c.done))
+			}
+			return cls, "clients-stuck", desc + ": no thread can make progress; " + strings.Join(st, "; ")
 		}
 		return cls, "", ""
 	}
@@ -735,6 +753,9 @@ func c12serverCheck(x *mcrt.Exec) (string, string, string) {
 	}
 	if o.endMap != "" {
 		return cls, "per-ip-counts-nonzero-at-quiescence", fmt.Sprintf("%s: perIPConnCounter.m = {%s} at quiescence", hist, o.endMap)
+	}
+	if o.stuck == "serve" {
+		return cls, "serve-did-not-return-after-listener-close", hist
 	}
 	if !p.serve {
 		for i := range o.conns {
